@@ -38,22 +38,43 @@ FUNCS = {
     'rlog': lambda v: math.log10(v),                  # raises ValueError for v <= 0 (designed scenarios only)
 }
 LIPSCHITZ_FUNCS = ('sat', 'soft')                     # the ones the random grammar may use
+FUNCS['avg2'] = lambda a, b: 0.5 * (a + b)            # two arguments, Lipschitz 1 in the sup norm
+
+
+def func_impl(entry):
+    """An entry of case['funcs'] is either a key of FUNCS (registered under that very name) or
+    'name=key': the function FUNCS[key] registered under `name`.  -> (name, callable)"""
+    if '=' in entry:
+        name, key = entry.split('=', 1)
+        return name, FUNCS[key]
+    return entry, FUNCS[entry]
+
+
+# names of each class of spec/SolverFunctions.tla, by arity
+FUNCTION_NAMES = {
+    'plain': {1: ['share', 'f'], 2: ['mix']},
+    'math': {1: ['gamma', 'exp', 'log', 'erf', 'sqrt', 'fabs', 'floor', 'tanh'], 2: ['dist', 'hypot', 'fmod', 'pow']},
+    'builtin_usable': {1: ['abs', 'round', 'float'], 2: ['max', 'min']},
+    'solver_global': {1: ['copy', 'warnings'], 2: ['Logger']},
+}
 
 
 class Counting(object):
     def __init__(self, f):
         self.f = f
         self.n = 0
+        self.total = 0
 
     def __call__(self, *a):
         self.n += 1
+        self.total += 1
         return self.f(*a)
 
 
 def new_case(label, **kw):
     c = {'label': label, 'eqs': [], 'lags': [], 'exos': [], 'ics': [], 'maxtime': 3, 'tol_line': None,
          'tol_param': None, 'cap': None, 'reduction': True, 'funcs': [], 'lam': 1.0, 'contractive': False,
-         'exp': None, 'alias': None}
+         'exp': None, 'alias': None, 'fn_pred': None}
     c.update(kw)
     return c
 
@@ -183,8 +204,9 @@ def judge_period(case, parser, ts, k, skip=()):
     deco = set(v for v, _ in parser.Decoration)
     sim = [v for v, _ in parser.Endogenous]
     env = dict(MATH_ENV)
-    for fn in case['funcs']:
-        env[fn] = FUNCS[fn]
+    for entry in case['funcs']:
+        name, f = func_impl(entry)
+        env[name] = f                 # the function the user registered shadows every homonym
     n = max(1, len(sim))
     # "the magnitude of the values": the reported values and the start iterate (= the values of period k-1),
     # which is what the solver's own relative test scales by; the weaker reading of the statement
@@ -235,8 +257,8 @@ def judge_period(case, parser, ts, k, skip=()):
 def _make_solver(case, counters=None):
     from sfc_models.equation_solver import EquationSolver
     s = EquationSolver(run_equation_reduction=bool(case['reduction']))
-    for fn in case['funcs']:
-        f = FUNCS[fn]
+    for entry in case['funcs']:
+        fn, f = func_impl(entry)
         if counters is not None:
             f = counters.setdefault(fn, Counting(f))
         s.AddFunction(fn, f)
@@ -255,7 +277,7 @@ def observe(case, whole=True):
     horizon = int(case['maxtime'])
     fin = {'ev': 'Finish', 'returned': False, 'contractive': bool(case.get('contractive')), 'exc': 'none',
            'horizon': horizon, 'whole_equal': True, 'steps': 0, 'stage': 'solve', 'exc_type': '', 'lens_ok': True,
-           'alias_pred': 'na', 'alias_obs': 'na'}
+           'alias_pred': 'na', 'alias_obs': 'na', 'fn_pred': 'na', 'fn_obs': 'na'}
     counters = {}
     use_trace = not case['funcs']
     try:
@@ -311,7 +333,7 @@ def observe(case, whole=True):
                         continue
                     if len(tr[key]) == sweeps:
                         last[key] = tr[key][-1]
-                final_err = recompute_error(P.Endogenous, last, {fn: FUNCS[fn] for fn in case['funcs']})
+                final_err = recompute_error(P.Endogenous, last, dict(func_impl(e) for e in case['funcs']))
                 if isinstance(final_err, float) and math.isnan(final_err):
                     err_nan = True
         else:
@@ -341,6 +363,10 @@ def observe(case, whole=True):
             failed = exc
             break
     fin['steps'] = len(events)
+    if case.get('fn_pred'):
+        # spec/SolverFunctions.tla predicts which layer answers the call
+        fin['fn_pred'] = case['fn_pred']
+        fin['fn_obs'] = 'functions' if any(c.total > 0 for c in counters.values()) else 'other'
     if failed is None:
         fin['returned'] = True
         for ev in events:
@@ -375,7 +401,7 @@ TLA_STEP_FIELDS = ('ev', 'k', 'sweeps', 'cap', 'horizon', 'exit', 'errNaN', 'fin
                    'deco_exact', 'lag_exact', 'exo_exact', 'len_sim', 'len_lag', 'len_deco', 'len_min', 'len_max',
                    'prefix_intact', 'exp_n', 'returned')
 TLA_FINISH_FIELDS = ('ev', 'returned', 'contractive', 'exc', 'horizon', 'whole_equal', 'steps', 'lens_ok',
-                     'alias_pred', 'alias_obs')
+                     'alias_pred', 'alias_obs', 'fn_pred', 'fn_obs')
 
 
 def for_tla(events):
@@ -670,6 +696,40 @@ def chain_case(decl):
 
 
 # ----------------------------------------------------------------------------------------------
+# (a4) systems realising the behaviours of spec/SolverFunctions.tla
+# ----------------------------------------------------------------------------------------------
+
+def function_cases(beh):
+    """One case per name of the behaviour's class and arity: the function (clip to +-5, or the mean of two
+    arguments) is registered under that name and called by a simultaneous row, a derived-only row or both.
+    At the solution the arguments are about 2..4, where the registered function and every library homonym
+    differ clearly."""
+    use = beh['use']
+    out = []
+    for name in FUNCTION_NAMES[use['class']][int(use['arity'])]:
+        impl = 'sat' if int(use['arity']) == 1 else 'avg2'
+        call_y = '%s(y)' % name if impl == 'sat' else '%s(y, 4.0)' % name
+        call_x = '%s(x)' % name if impl == 'sat' else '%s(x, y)' % name
+        c = new_case('fn:%s:%s:%d:%s%s' % (use['class'], name, int(use['arity']), use['place'],
+                                           ':red' if use['red'] else ':nored'),
+                     maxtime=2, reduction=bool(use['red']), tol_line='1e-6', lam=1.0,
+                     funcs=['%s=%s' % (name, impl)])
+        eqs = c['eqs']
+        eqs.append(['y', '0.5*y + cy'])
+        c['exos'].append(['cy', [1.0, 1.0, 1.5]])
+        if use['place'] in ('sim', 'both'):
+            eqs.append(['x', '0.25*x + 0.5*%s + 1' % call_y])
+        else:
+            eqs.append(['x', '0.25*x + 0.5*y + 1'])
+        if use['place'] in ('deco', 'both'):
+            eqs.append(['d', '2*%s + 1' % call_x])
+        c['lam'] = 2.0
+        c['fn_pred'] = beh['resolved'] if beh['resolved'] == 'functions' else 'other'
+        out.append(c)
+    return out
+
+
+# ----------------------------------------------------------------------------------------------
 # (c) the named designed systems
 # ----------------------------------------------------------------------------------------------
 
@@ -927,6 +987,11 @@ def signature(clause, case, events):
         f = failing_step(events)
         return 'failure-is-not-a-value-or-arithmetic-error:' + str((f or fin).get('exc_type'))
     kind = case['label'].split(':')[0]
+    if kind == 'fn':
+        lab = case['label'].split(':')
+        if fin.get('fn_pred') == 'functions' and fin.get('fn_obs') == 'other':
+            return '%s:registered-function-not-called:%s-name' % (clause, lab[1])
+        return '%s:fn:%s' % (clause, lab[1])
     if kind == 'chain' and clause == 'C02_DecorativeExact':
         return 'C02_DecorativeExact:copy-chain-value-of-another-period'
     if kind == 'form':
@@ -1189,8 +1254,9 @@ def harvested_events(rec):
     lists = _Lists(endo, deco)
     sim_names = [v for v, _ in endo]
     env = dict(MATH_ENV)
-    for fn in case['funcs']:
-        env[fn] = FUNCS[fn]
+    for entry in case['funcs']:
+        name, f = func_impl(entry)
+        env[name] = f
     events = []
     lam_max = 0.0
     nonexo = [v for v, _ in endo + deco + lag_used if v in ts]
@@ -1223,7 +1289,7 @@ def harvested_events(rec):
     lens_ok = all(len(x) == H + 1 for x in ts.values())
     events.append({'ev': 'Finish', 'returned': True, 'contractive': False, 'exc': 'none', 'horizon': H,
                    'whole_equal': True, 'steps': H, 'lens_ok': bool(lens_ok), 'exc_type': '', 'stage': 'solve',
-                   'alias_pred': 'na', 'alias_obs': 'na'})
+                   'alias_pred': 'na', 'alias_obs': 'na', 'fn_pred': 'na', 'fn_obs': 'na'})
     info['lam_estimate'] = round(lam_max, 6)
     info['rows'] = {'simultaneous': len(endo), 'decorative': len(deco), 'lagged': len(lag_used), 'exogenous': len(exos)}
     case['lam'] = round(2.0 * lam_max + 1e-6, 6)
